@@ -44,13 +44,15 @@ def plan(tier, seed):
     A = lambda **kw: Scenario(kind="asyncio", **kw)  # noqa: E731
     P = []
     if tier == "quick":
+        # small exhaustive ones first (they contain every known race window), the big one after them
+        P.append((T(name="t2x1e", progs=[[1], [2]], nest={}, nest_at={}, gran="engine"), 2, 0.08, 0, True))
+        P.append((A(name="a2", progs=[[1, 2], [3]], nest={}, nest_at={}, yields={"on": 1, "after": 1}, split=[3], gaps=[0, 1]), 2, 0.06, 0, True))
+        P.append((T(name="t2x21n", progs=[[1, 2], [3]], nest={1: [7]}, nest_at={1: at()}, gran="engine"), 2, 0.12, 0, True))
+        P.append((A(name="a3n", progs=[[1], [2], [3]], nest={1: [7]}, nest_at={1: at()}, yields={**y(1), "on": 1}, split=[2], gaps=[0, 1, 2]), 2, 0.08, 0, True))
         P.append((T(name="t2x1", progs=[[1], [2]], nest={}, nest_at={}, gran="full"), 2, 0.20, 0, True))
-        P.append((T(name="t2x21n", progs=[[1, 2], [3]], nest={1: [7]}, nest_at={1: at()}, gran="engine"), 2, 0.15, 0, True))
-        P.append((T(name="t2x2", progs=[[1, 2], [3, 4]], nest={3: [8]}, nest_at={3: at()}, gran="engine"), 2, 0.22, 300, False))
-        P.append((T(name="t3x1", progs=[[1], [2], [3]], nest={}, nest_at={}, gran="engine"), 1, 0.10, 300, True))
-        P.append((A(name="a2", progs=[[1, 2], [3]], nest={}, nest_at={}, yields={"on": 1, "after": 1}, split=[3], gaps=[0, 1]), 6, 0.08, 0, True))
-        P.append((A(name="a3n", progs=[[1], [2], [3]], nest={1: [7]}, nest_at={1: at()}, yields={**y(1), "on": 1}, split=[2], gaps=[0, 1, 2]), 5, 0.14, 0, True))
-        P.append((A(name="a4", progs=[[1, 2], [3], [4, 5], [6]], nest={3: [8]}, nest_at={3: at()}, yields=y(2), split=[4, 6], gaps=[0, 1, 1, 2]), 2, 0.08, 200, False))
+        P.append((T(name="t2x2", progs=[[1, 2], [3, 4]], nest={3: [8]}, nest_at={3: at()}, gran="engine"), 2, 0.15, 300, False))
+        P.append((T(name="t3x1", progs=[[1], [2], [3]], nest={}, nest_at={}, gran="engine"), 1, 0.06, 300, True))
+        P.append((A(name="a4", progs=[[1, 2], [3], [4, 5], [6]], nest={3: [8]}, nest_at={3: at()}, yields=y(2), split=[4, 6], gaps=[0, 1, 1, 2]), 1, 0.05, 200, False))
     else:
         P.append((T(name="t2x1", progs=[[1], [2]], nest={}, nest_at={}, gran="full"), 2, 0.03, 0, True))
         P.append((T(name="t2x1e3", progs=[[1], [2]], nest={}, nest_at={}, gran="engine"), 3, 0.10, 0, True))
@@ -61,13 +63,13 @@ def plan(tier, seed):
         P.append((T(name="t3x2", progs=[[1, 2], [3, 4], [5]], nest={3: [8]}, nest_at={3: at()}, gran="engine"), 2, 0.08, 3000, False))
         P.append((T(name="t4x1n", progs=[[1], [2], [3], [4]], nest={1: [7], 7: [8]}, nest_at={1: at(), 7: at()}, gran="engine"), 2, 0.08, 4000, False))
         P.append((T(name="t4x2", progs=[[1, 2], [3, 4], [5, 6], [7]], nest={}, nest_at={}, gran="engine"), 1, 0.04, 4000, False))
-        P.append((A(name="a2", progs=[[1, 2], [3, 4]], nest={1: [7]}, nest_at={1: at()}, yields=y(2), split=[3], gaps=[0, 1]), 99, 0.03, 0, True))
-        P.append((A(name="a3n", progs=[[1, 2], [3], [4]], nest={1: [7], 3: [8]}, nest_at={1: at(), 3: at()}, yields={**y(2), "on": 2}, split=[3], gaps=[0, 1, 2]), 6, 0.04, 0, True))
+        P.append((A(name="a2", progs=[[1, 2], [3, 4]], nest={1: [7]}, nest_at={1: at()}, yields=y(2), split=[3], gaps=[0, 1]), 3, 0.03, 0, True))
+        P.append((A(name="a3n", progs=[[1, 2], [3], [4]], nest={1: [7], 3: [8]}, nest_at={1: at(), 3: at()}, yields={**y(2), "on": 2}, split=[3], gaps=[0, 1, 2]), 3, 0.04, 0, True))
         P.append((A(name="a4", progs=[[1, 2], [3, 4], [5, 6], [7]], nest={3: [8]}, nest_at={3: at()}, yields={**y(2), "after": 1}, split=[5, 7], gaps=[1, 0, 2, 1]), 3, 0.04, 3000, False))
-        P.append((A(name="a4s", progs=[[1], [2], [3], [4]], nest={1: [7, 8]}, nest_at={1: at()}, yields=y(2), split=[2, 3, 4], gaps=[0, 2, 1, 0]), 5, 0.03, 2000, False))
+        P.append((A(name="a4s", progs=[[1], [2], [3], [4]], nest={1: [7, 8]}, nest_at={1: at()}, yields=y(2), split=[2, 3, 4], gaps=[0, 2, 1, 0]), 3, 0.03, 2000, False))
     # seeded random families: 2-4 senders x 1-2 events, nested sends anywhere, yields 0-2, split sends
     nA, nT = (6, 2) if tier == "quick" else (40, 12)
-    shareA, shareT = (0.012, 0.02) if tier == "quick" else (0.002, 0.004)
+    shareA, shareT = (0.02, 0.03) if tier == "quick" else (0.002, 0.004)
     for j in range(nA + nT):
         r = random.Random(f"{seed}:C06:family:{j}")
         n = r.randint(2, 4)
@@ -84,7 +86,7 @@ def plan(tier, seed):
         if j < nA:
             sc = A(name=f"ra{j}", progs=progs, nest=nest, nest_at=nest_at, yields={c: r.randint(0, 2) for c in CB},
                    split=[u for u in tops if r.random() < 0.4], gaps=[r.randint(0, 2) for _ in range(n)])
-            P.append((sc, 3, shareA, 60 if tier == "quick" else 300, False))
+            P.append((sc, 2, shareA, 60 if tier == "quick" else 300, False))
         else:
             sc = T(name=f"rt{j - nA}", progs=progs, nest=nest, nest_at=nest_at, gran="engine")
             P.append((sc, 1, shareT, 100 if tier == "quick" else 600, False))
@@ -193,7 +195,7 @@ def _run(ctx, pool, procs):
     any_spec = []
     any_map = []
     for scn, bound, share, nsample, do_enum in plans:
-        deadline = min(time.time() + share * budget * 1.3, t0 + budget)
+        deadline = min(time.time() + share * budget, t0 + budget)
         t1 = time.time()
         acc = explore_parallel(pool, scn, bound, deadline, procs)
         exhaustive = not acc.cut
@@ -222,7 +224,7 @@ def _run(ctx, pool, procs):
                     elif not any(ds == f[0] for f in acc.spec_fail):
                         acc.map_fail.append((ds, f"outcome `{o}` is not in the model's outcome set ({len(mouts)} outcomes)", []))
                 info["model_outcomes_realised"] = len(hit)
-                if scn.name == "t2x1" and exhaustive and len(hit) < len(mouts) and not acc.spec_fail:
+                if scn.name in ("t2x1", "t2x1e", "t2x1e3") and exhaustive and len(hit) < len(mouts) and not acc.spec_fail:
                     miss = [m for m in mouts if m not in hit]
                     acc.map_fail.append(("-", f"model outcome never realised by the implementation within the bound: `{miss[0]}` "
                                               f"({len(hit)}/{len(mouts)} realised)", []))
